@@ -86,7 +86,8 @@ def export_medit(mesh : RawMeshData, path):
 
         if hasattr(mesh, "edges") and not mesh.edges.empty():
             f.write("Edges\n")
-            if mesh.edges.has_attribute("hard_edges"):
+            if mesh.edges.has_attribute("hard_edges") and not (mesh.faces.empty() and mesh.cells.empty()):
+                # only the hard edges are exported when the reader can rebuild the other ones from the faces / cells of the file
                 f.write("{}\n".format(len(mesh.edges.get_attribute("hard_edges"))))
                 for e in mesh.edges.get_attribute("hard_edges"):
                     a,b = mesh.edges[e]
